@@ -30,8 +30,19 @@ def _is_complement_pair(A, t: T):
         c = c.args[0].args[0]
     if c.op == "attr" and c.args[1] == "T":
         c = c.args[0]
+    transposed = c is not t
     if c.op == "call" and c.args[0].op == "global" and c.args[0].args[0] in ("numpy.array", "numpy.concatenate", "numpy.column_stack",
                                                                              "numpy.vstack", "numpy.hstack", "numpy.stack") and c.args[1]:
+        fn = c.args[0].args[0]
+        axis = dict(c.args[2]).get("axis")
+        # the two columns must be laid side by side: concatenate/stack of column vectors along axis 1, column_stack/hstack,
+        # or rows (array / vstack / stack along 0) that are then transposed
+        if fn in ("numpy.concatenate", "numpy.stack") and not transposed and axis is not const(1):
+            return None
+        if fn in ("numpy.array", "numpy.vstack") and not transposed:
+            return None
+        if fn in ("numpy.concatenate", "numpy.stack") and transposed and axis is not None and axis is not const(0):
+            return None
         items = c.args[1][0]
         if items.op in ("list", "tuple") and len(items.args[0]) == 2:
             a, b = items.args[0]
@@ -84,8 +95,12 @@ def r101(ctx):
         if A.C.canon(e.data["value"]) is not want_h:
             lits = [A.C.canon(x) for x in pc_literals(e.pc)]
             zero_guard = zero_guard and any(l is A.C.canon(A.entry(r, "self.weights_[T] == 0", {"T": tvar})) for l in lits)
-    ctx.ob("R10.1", r.func, st[0].node, ok and zero_guard, "column t of pred is the t-th stored predictor's output (zeros only "
-           "where its weight is 0)", construct="EG pred columns")
+    # every iteration stores the column: one unconditional store, or two stores under complementary guards
+    guards = [[l for l in pc_literals(e.pc) if l.op != "inloop"] for e in st]
+    covered = (len(st) == 1 and not guards[0]) or (len(st) == 2 and len(guards[0]) == 1 and len(guards[1]) == 1
+                                                   and A.C.canon(guards[0][0]) is A.C._not(A.C.canon(guards[1][0])))
+    ctx.ob("R10.1", r.func, st[0].node, ok and zero_guard and covered, "column t of pred is the t-th stored predictor's output "
+           "(zeros only where its weight is 0) and is stored on every path", construct="EG pred columns")
     # thresholder
     A2 = Analysis(ctx, max_depth=1)
     r2 = A2.run(IT + "._pmf_predict", cls_ctx=IT)
@@ -183,6 +198,27 @@ def r103(ctx):
                    "position although the two are ordered differently (columns by predictor id, weights by first use)")
         ctx.ob("R10.3", r.func, e.node, ok, "values and probabilities handed to choice() are ordered by the same index" if ok
                else why, construct="aligned choice")
+        # one draw per row: the loop ranges over the rows of pred, the draw is stored at the row's position of an array
+        # of that length, and that array is returned
+        rows = A.spec("pred.shape[0]", {"pred": pred}) if pred is not None else None
+        okr = rows is not None and any(A.eq(lev.data["iter"], A.spec(s_, {"n": rows, "pred": pred, "len": glob("builtins.len")}))
+                                       for s_ in ("range(n)", "range(0, n)", "range(len(pred))"))
+        sts = [x for x in r.events if x.kind == "store" and x.data.get("tkind") == "sub" and x.loops == e.loops
+               and x.data["value"] is e.data["result"]]
+        okr = okr and len(sts) == 1 and sts[0].data["key"] is i
+        if okr:
+            holder = root_of(sts[0].data["obj"])
+            init = holder.args[2] if holder.op == "loopvar" else holder
+            okr = init.op == "call" and init.args[0].op == "global" and init.args[0].args[0] in (
+                "numpy.zeros", "numpy.empty", "numpy.ones", "numpy.full") and bool(init.args[1]) and (
+                A.eq(init.args[1][0], rows) or A.eq(init.args[1][0], A.spec("len(pred)", {"pred": pred, "len": glob("builtins.len")})))
+            reg = r.ret
+            while reg.op == "assume":
+                reg = reg.args[1]
+            reg = reg.args[2] if reg.op == "ite" else reg
+            okr = okr and reg.op == "loopout" and reg.args[2] is init
+        ctx.ob("R10.3", r.func, e.node, bool(okr), "one value is drawn per row of pred, stored at that row's position of a "
+               "result of the same length, and that result is returned", construct="one draw per row")
         rs = e.data["fterm"].args[0]
         ok2 = rs.op == "call" and rs.args[0] is glob(CRS)
         ctx.ob("R10.3", r.func, e.node, ok2, "choice() draws from the seeded generator", construct="choice generator")
